@@ -67,11 +67,31 @@ fn build_schema(shapes: &[ATy], kind: &Kind) -> ASchema {
             fields: shapes.iter().enumerate().filter(|(_, t)| !t.is_non_null()).map(|(i, t)| (format!("h{}", i), with(t))).collect(),
         });
     }
+    if kind.output_ok {
+        // an implementor may NARROW an inherited field: the interface declares the fully nullable form, the object the shape
+        fn widen(t: &ATy) -> ATy {
+            match t {
+                ATy::Named(n) => ATy::named(n),
+                ATy::List(i) => ATy::List(Box::new(widen(i))),
+                ATy::NonNull(i) => widen(i),
+            }
+        }
+        types.push(AType::Interface { name: "Wide".into(), fields: shapes.iter().enumerate().map(|(i, t)| AField { name: format!("n{}", i), ty: widen(&with(t)), dep: None }).collect() });
+        types.push(AType::Object {
+            name: "Narrow".into(),
+            implements: vec!["Wide".into()],
+            fields: shapes.iter().enumerate().map(|(i, t)| AField { name: format!("n{}", i), ty: with(t), dep: None }).collect(),
+            ext_fields: vec![],
+        });
+        qfields.push(AField { name: "narrow".into(), ty: ATy::named("Narrow"), dep: None });
+    }
     types.push(AType::Object { name: "Query".into(), implements: vec![], fields: qfields, ext_fields: vec![] });
     ASchema { types, query: Some("Query".into()), mutation: None, subscription: None }
 }
 
-fn build_query(shapes: &[ATy], kind: &Kind) -> String {
+fn build_query(shapes: &[ATy], kind: &Kind, directives: bool) -> String {
+    // `@include(if: true)` / `@skip(if: false)` leave the selection as it is: the types must not depend on them
+    let deco = |i: usize| if !directives { "" } else if i % 2 == 0 { " @include(if: true)" } else { " @skip(if: false)" };
     let mut q = String::from("query Q");
     if kind.input_ok {
         let with = |t: &ATy| t.render().replace("BASE", kind.gql);
@@ -82,11 +102,20 @@ fn build_query(shapes: &[ATy], kind: &Kind) -> String {
     if kind.output_ok {
         for i in 0..shapes.len() {
             if kind.composite {
-                q.push_str(&format!("  f{} {{ x }}\n", i));
+                q.push_str(&format!("  f{}{} {{ x }}\n", i, deco(i)));
             } else {
-                q.push_str(&format!("  f{}\n", i));
+                q.push_str(&format!("  f{}{}\n", i, deco(i)));
             }
         }
+        q.push_str("  narrow {\n");
+        for i in 0..shapes.len() {
+            if kind.composite {
+                q.push_str(&format!("    n{}{} {{ x }}\n", i, deco(i + 1)));
+            } else {
+                q.push_str(&format!("    n{}{}\n", i, deco(i + 1)));
+            }
+        }
+        q.push_str("  }\n");
     }
     q.push_str("}\n");
     q
@@ -96,17 +125,18 @@ pub fn run(a: &Args) -> i32 {
     let mut rep = Report::new(
         "C13",
         a,
-        "every type expression with list depth <= 4 (62 shapes: all placements of `!`) x 9 named kinds x positions {response field, variable, input field, @oneOf member} x {SDL, introspection JSON} x {plain, default values on input fields, normalization rust}; a case is one (shape, kind, position, format) whose emitted Rust type was read with syn and compared with the rule; non-trivial = at least one list level or a non-null marker",
+        "every type expression with list depth <= 4 (62 shapes: all placements of `!`) x 9 named kinds x positions {response field, field of an object that narrows the interface's declaration, variable, input field, @oneOf member} x {SDL, introspection JSON} x {plain, default values on input fields, normalization rust, literal @include / @skip directives on the selections}; a case is one (shape, kind, position, format) whose emitted Rust type was read with syn and compared with the rule; non-trivial = at least one list level or a non-null marker",
     );
     let shapes = ATy::all_shapes("BASE", 4);
     let mut ctx = CaseCtx::new();
     let expected_aliases = [("Boolean", "bool"), ("Float", "f64"), ("Int", "i64"), ("ID", "String")];
     for kind in KINDS.iter() {
         let schema = build_schema(&shapes, kind);
-        let query = build_query(&shapes, kind);
+
         // the rule must not depend on the schema format, on default values written on input fields, or on the
         // normalization option (the kinds used here keep their names under Rust normalization)
-        for (is_json, variant) in [(false, "plain"), (true, "plain"), (false, "input-defaults"), (true, "input-defaults"), (false, "normalization-rust"), (true, "normalization-rust")] {
+        for (is_json, variant) in [(false, "plain"), (true, "plain"), (false, "input-defaults"), (true, "input-defaults"), (false, "normalization-rust"), (true, "normalization-rust"), (false, "directives")] {
+            let query = build_query(&shapes, kind, variant == "directives");
             let fmt_owned = format!("{}{}", if is_json { "json" } else { "sdl" }, if variant == "plain" { String::new() } else { format!("+{}", variant) });
             let fmt = fmt_owned.as_str();
             let knobs = RenderKnobs { input_defaults: variant == "input-defaults", ..RenderKnobs::default() };
@@ -161,6 +191,12 @@ pub fn run(a: &Args) -> i32 {
                     let base = if kind.composite { format!("QF{}", i) } else { base_rust.clone() };
                     let found = fields.iter().find(|f| f.rust == format!("f{}", i)).map(|f| ty_string(f.ty));
                     check(&mut rep, "response-field", i, found, shape.rust_of(&base), shape);
+                }
+                let narrow = find_item(items, "struct", "QNarrow").map(struct_fields).unwrap_or_default();
+                for (i, shape) in shapes.iter().enumerate() {
+                    let base = if kind.composite { format!("QNarrowN{}", i) } else { base_rust.clone() };
+                    let found = narrow.iter().find(|f| f.rust == format!("n{}", i)).map(|f| ty_string(f.ty));
+                    check(&mut rep, "narrowed-inherited-field", i, found, shape.rust_of(&base), shape);
                 }
             }
             if kind.input_ok {
